@@ -1081,7 +1081,7 @@ class PulseSequence:
     @omega.setter
     def omega(self, value: Coefficients) -> None:
         """Cache frequencies"""
-        self._omega = np.asarray(value) if value is not None else value
+        self._omega = np.array(value) if value is not None else value
 
     @property
     def nbytes(self) -> int:
